@@ -31,6 +31,11 @@ RVal(d) == RNorm(d[1], 2 ^ d[2])
 Near(d, r) == IF d[2] < 0 THEN FALSE
               ELSE IF Len(d) = 2 THEN REq(RDy(d), r)
               ELSE LET diff == d[1] * r[2] - r[1] * 65536 IN (IF diff < 0 THEN -diff ELSE diff) <= 8 * r[2]
+\* tolerant in both encodings: |value - r| <= 2^-13 (for quantities that are only claimed to a few ulps)
+NearTol(d, r) == IF d[2] < 0 THEN FALSE
+                 ELSE LET diff == d[1] * r[2] - r[1] * (2 ^ d[2])
+                          ad == IF diff < 0 THEN -diff ELSE diff IN
+                      IF d[2] >= 13 THEN ad <= r[2] * (2 ^ (d[2] - 13)) ELSE ad * (2 ^ (13 - d[2])) <= r[2]
 RECURSIVE RSum(_, _)
 RSum(s, i) == IF i > Len(s) THEN <<0, 1>> ELSE RAdd(s[i], RSum(s, i + 1))
 \* order-preserving code of a finite double: <<sign, hi, mid, lo>> = sign and the bit pattern of |x| split 31/17/16
